@@ -21,7 +21,7 @@ from simftp.peers import RawPeer
 
 PROP = "C05"
 TREE = {"/": None, "/f": b"0123456789abcdefghijklmnopqrstuvwxyzABCD", "/d": None, "/d/g": b"gggggggggg-0123456789-hh", "/d/e": None, "/z": None}
-PATHS = ["f", "d", "d/g", "d/e", "z", "missing", "missing/x", "f/x", "../d", "./f", "d/../f", "/d", "//d/", "", "d/", "/", "..", "d/g/..", "new", "d/new", "z/n1/n2", "/d/e/../g"]
+PATHS = ["f", "d", "d/g", "d/e", "z", "missing", "missing/x", "f/x", "f/x/y", "../d", "./f", "d/../f", "/d", "//d/", "", "d/", "/", "..", "d/g/..", "new", "d/new", "z/n1/n2", "/d/e/../g"]
 REST_ARGS = ["0", "5", "05", "12", "-1", "3abc", "", " 7", "²", "١٢", "９", "1_0", "+4", "40", "41", "1000", "9" * 25, "9" * 4300, "9" * 5000, "1" + "0" * 9999]
 VERBS_PLAIN = ["PWD", "CWD", "CDUP", "MKD", "RMD", "DELE", "RNFR", "RNTO", "MLST", "TYPE", "PBSZ", "PROT", "SYST", "ABOR", "REST", "NOOP", "SITE", "FEAT", "XPWD", "pwd", "Cwd"]
 
